@@ -171,3 +171,42 @@ def sanitizers(ctx):
         ctx.judged()
     ctx.extra["tsan_reports"] = reports
     ctx.nontrivial(("tsan", "ran"))
+    miri_pass(ctx)
+
+
+def miri_pass(ctx, n_seeds=6):
+    """the remove-last-definition / add scenario on native threads under Miri (UB and data-race detector of the
+    interpreter; its scheduler is seeded, so every seed is another interleaving)"""
+    import json as _j
+    from concurrent.futures import ThreadPoolExecutor
+    script = "\n".join(_j.dumps(c) for c in [
+        {"op": "new_db"},
+        dict(an(A, A1), db=0), dict(an(C, C1), db=0),
+        {"op": "stress", "threads": [[dict(an(A, A2), db=0)], [dict(an(B, B1, True), db=0)], [{"op": "queries", "db": 0}]]},
+        {"op": "invariants", "db": 0}, {"op": "raw", "db": 0}]) + "\n"
+    # the first run compiles the dependencies for the Miri target; do it once before fanning out
+    rc, out, err = build.miri_run(script, seed=0, timeout=3600)
+    results = [(0, rc, out, err)]
+    with ThreadPoolExecutor(max_workers=6) as ex:
+        futs = [ex.submit(lambda k=k: (k,) + build.miri_run(script, seed=k, timeout=3600)) for k in range(1, n_seeds)]
+        results += [f.result() for f in futs]
+    ran = 0
+    for k, rc, out, err in results:
+        if rc is None:
+            ctx.count("miri_timeouts")
+            continue
+        ctx.judged()
+        if "Undefined Behavior" in err or "Data race detected" in err or "data race" in err.lower():
+            ctx.violation({"kind": "miri-report", "seed": k}, {"stderr": err[-3000:]})
+        elif rc != 0:
+            ctx.count("miri_unsupported_or_failed")
+            ctx.notes.append(err[-400:])
+        else:
+            ran += 1
+            last = [l for l in out.strip().split("\n") if l.startswith("{")]
+            inv = _j.loads(last[-2])["violations"] if len(last) >= 2 else None
+            if inv:
+                ctx.violation({"kind": "invariant-under-miri", "seed": k}, {"invariants": inv})
+    ctx.extra["miri_runs_completed"] = ran
+    if ran:
+        ctx.nontrivial(("miri", "ran"))
